@@ -7,13 +7,14 @@ from ..refs import units_ref as R
 from ..refs import unit_gens as G
 
 ID = "C08"
-RULE = ("Magnitude / Quantity operands with values of either sign, absolute uncertainty None or positive (<50% relative), "
+RULE = ("Magnitude / Quantity operands with values of either sign, absolute uncertainty None or positive (mostly <50% relative, some 125-300%), "
         "scalars and arrays, exact numbers of either sign, integer powers -3..3, rele= constructors, and linear unit "
         "conversions between random same-dimension unit expressions. One predicate per clause of the property: result "
         "error None or >= 0 everywhere; +/-: ea+eb (right error scaled by F(v)/F(u) for mixed units); exact factor k: "
         "|k| ea resp. ea/|k|; two uncertain positive operands: >= a eb + b ea (product), >= ea/b + a eb/b^2 (quotient); "
         "to(v)/value-preserving conversion scales the absolute error by F(u)/F(v) and keeps the relative error; exact "
-        "operands give an exact result. Non-trivial: negative factor or exponent or value, array operand, or a "
+        "operands give an exact result; integer errors set with the in-place setter; a.to(b) with an uncertain reference "
+        "quantity b behaves like a/b. Non-trivial: negative factor or exponent or value, array operand, or a "
         "conversion with F(u)!=F(v) of an uncertain quantity. Distinct = distinct case JSON.")
 ASSUMPTIONS = [
     "the size of the power rule is not claimed by the property (only its sign is checked)",
